@@ -318,7 +318,7 @@ package tan
 // ---------------------------------------------------------------- which log files may be deleted (C09)
 // a log file referenced by any index range, by the snapshot record or by the hard-state record
 // of a replica is in use and must not be removed by compaction
-//@ func (n *nodeIndex) fileInUse [C09]
+//@ func (n *nodeIndex) fileInUse [C09 C04]
 // the ranges of a replica's index are ordered by log file (files are written in sequence):
 // fnum(i) is the file of range i, non-decreasing in i
 //@ requires forall i int :: 0 <= i && i < len(n.entries.entries) ==> n.entries.entries[i].fileNum == uf("fnum", i)
@@ -352,11 +352,37 @@ package tan
 //@ trusted MANIFEST write lock (condition variable)
 //@ modifies vs.writing
 //@ ensures vs.writing
-//@ func (n *nodeIndex) removeAll [C20]
-//@ trusted clears the in-memory index of the replica
+// removing a replica's data clears BOTH views of its index (the persisted per-file one too: it is what
+// the next index file is written from) as well as its snapshot and state records
+//@ func (n *nodeIndex) removeAll [C20 C09]
 //@ modifies *n
+//@ ensures len(n.entries.entries) == 0 && len(n.currEntries.entries) == 0 && n.entries.compactedTo == 0 && n.currEntries.compactedTo == 0
+//@ ensures n.snapshot.start == 0 && n.snapshot.end == 0 && n.state.start == 0 && n.state.end == 0
 //@ func (d *db) removeAllLocked [C20]
 //@ noframe
 //@ nobounds
 //@ requires !gWriteFailed && !gReadFailed && !gDirDirty && gDirHandles[obj(d.dataDir)] && !gDirHandles[obj(d.mu.versions.manifestFile)]
 //@ loop 1 invariant ve.deletedFiles != nil && fresh(ve.deletedFiles) && (forall fn fileNum :: visited(fn) && fn != d.mu.versions.manifestFileNum && fn != d.mu.logNum ==> mk(deletedFileEntry, fn) in ve.deletedFiles)
+
+// ---------------------------------------------------------------- tan: writing an index file (C10)
+// the index file is published by rename only after the record writer has flushed its last block AND
+// the file has been fsynced after that (an fsync that precedes the flush leaves an empty or torn
+// index file behind a successful save, and the db cannot be reopened)
+//@ func (e indexEncoder) writeUvarint [C10]
+//@ trusted appends one uvarint to the in-memory buffer
+//@ func (i *index) encode [C10]
+//@ trusted encodes the ranges of one index into the record writer
+//@ modifies gWriteFailed, gDataSynced
+//@ ghostset gWriteFailed := old(gWriteFailed) || result != nil
+//@ ghostset gDataSynced := false
+//@ extern io (w Writer) Write
+//@ ghostset gWriteFailed := old(gWriteFailed) || result1 != nil
+//@ ghostset gDataSynced := false
+//@ extern bytes (b *Buffer) Bytes
+//@ func (s *nodeStates) save [C10 C04]
+//@ noframe
+//@ nobounds
+//@ requires !gWriteFailed && !gReadFailed && !gDirDirty && gDirHandles[obj(dir)]
+//@ modifies gWriteFailed, gDirDirty, gDataSynced
+//@ ensures err == nil ==> !gDirDirty
+//@ loop 1 invariant !gReadFailed && (gWriteFailed ==> err != nil)
